@@ -1,4 +1,4 @@
-use crate::{apply_plan, output::ApplyResult, scanner::Plan, ApplyOptions};
+use crate::{apply_plan, output::ApplyResult, scanner::Plan, ApplyOptions, LockFile};
 use anyhow::{anyhow, Context, Result};
 use std::fs;
 use std::path::{Path, PathBuf};
@@ -33,6 +33,10 @@ pub fn apply_operation(
 
     let (mut plan, used_default_plan_file) =
         load_plan_from_source_with_tracking(plan_path, plan_id, &renamify_dir)?;
+
+    // Mutating command: hold the workspace lock while the tree is being changed
+    let _lock = LockFile::acquire(&renamify_dir)
+        .context("Failed to acquire lock for renamify operation")?;
 
     // Save stats before applying
     let files_changed = plan.stats.files_with_matches;
